@@ -59,6 +59,11 @@ func c02Alphabet() (lines []c02Line, hA, hB string) {
 		net(false, "||ads.пример.рф^", true), // shortcut windows with bytes >= 0x80
 		{text: "0.0.0.0 ads.пример.рф"},
 		net(true, ".org^", true, "important"), // short pattern: lands in the sequential table, found last
+		net(false, p, true, "client=192.168.0.0/16|fd00::/8"),
+		net(false, p, true, "client=~127.0.0.1|~::1"),
+		net(false, p, false, "third-party", "important"), // browser-only modifier next to a DNS-level one
+		net(true, p, false, "document", "important"),
+		net(false, p, false, "popup", "important"),
 	}
 	return lines, hA, hB
 }
@@ -71,7 +76,7 @@ type c02Req struct {
 func c02Requests(hA, hB string) (qs []c02Req) {
 	for _, h := range []string{"example.org", "sub.example.org", hA, hB, "EXAMPLE.ORG", "", "ads.пример.рф"} {
 		for _, t := range []uint16{1, 28, 16} {
-			for ci, cl := range []struct{ name, ip string }{{"", ""}, {"laptop", ""}, {"", "10.0.0.1"}} {
+			for ci, cl := range []struct{ name, ip string }{{"", ""}, {"laptop", ""}, {"", "10.0.0.1"}, {"", "fd00::17"}, {"", "::1"}} {
 				for ti, tags := range [][]string{nil, {"pc"}} {
 					r := urlfilter.DNSRequest{Hostname: h, DNSType: t, ClientName: cl.name, SortedClientTags: tags}
 					if cl.ip != "" {
